@@ -1,13 +1,13 @@
 (* C05 runner.  Input, one case per line:
-     demux <fx 0|1> <hex bytes of the file | "-" for the empty input>
+     demux <hex bytes of the file | "-" for the empty input>      (model: DemuxModel.parse true = the current code)
    Output: "I <panic | err | ok F=... (canonical demuxer result, see riffio.ml)>" *)
 open Zutil
 open Riffio
 
 let () = iter_lines (fun line ->
   match split_ws line with
-  | ["demux"; fx; hex] ->
+  | ["demux"; hex] ->
     let bs = if hex = "-" then [] else zlist_of_hex hex in
-    Printf.printf "I %s\n" (fmt_parse (DemuxModel.parse (fx = "1") bs))
+    Printf.printf "I %s\n" (fmt_parse (DemuxModel.parse true bs))
   | [] -> ()
   | _ -> print_endline "ERR bad-line")
